@@ -385,6 +385,16 @@ def make_case(rng: random.Random, nmax: int, chunked: bool | None = None) -> QCa
             for g in rng.sample(present, min(len(present), rng.choice([1, 1, 2]))) if present else []:
                 row = [NAN if l == g else v for v, l in zip(row, labels)]
         rows.append(row)
+    if chunked is not True and rng.random() < 0.06:
+        # many groups (more than 127 / 255 group codes), unsorted labels: the partition by (label, value) must keep the groups in
+        # ascending label order however wide the codes are
+        ng2 = rng.choice([130, 200, 260, 300])
+        n2 = ng2 + rng.randint(0, 60)
+        labels = list(range(ng2)) + [rng.randrange(ng2) for _ in range(n2 - ng2)]
+        rng.shuffle(labels)
+        rows = [[NAN if rng.random() < 0.1 else float(rng.choice(ALPHA)) for _ in range(n2)]]
+        return QCase(func=func, engine=rng.choice([None, "flox", "flox", "numpy"]), q=gen_q(rng, func), dtype="float64", labels=labels,
+                     rows=rows, batch1d=True, stream="manygroups")
     c = QCase(func=func, engine=engine, q=gen_q(rng, func), dtype=dtype, labels=labels, rows=rows, batch1d=batch1d, stream=stream)
     if (rng.random() < 0.4) if chunked is None else chunked:
         c.method = rng.choice([None, None, "blockwise", "blockwise", "map-reduce", "cohorts"])
@@ -432,7 +442,7 @@ class C18(Prop):
     level = "proof"
     rule = ("seeded generator: 1-D or 2-D (1-3 batch rows) arrays of 1..N values from {-3..3,5} and NaN (float64; int64 without "
             "NaN), 1-4 groups with random / sorted / run / periodic labels (optionally missing labels), streams finite / NaN 35% / "
-            "forced all-NaN groups / int; func in median, nanmedian, quantile, nanquantile; q scalar or vector (length 1-5, "
+            "forced all-NaN groups / int / 130-300 groups with unsorted labels (6 %); func in median, nanmedian, quantile, nanquantile; q scalar or vector (length 1-5, "
             "repeats and any order) over {0,1/4,1/2,3/4,1}, sometimes absent; engine None/flox/numpy; 40% on dask input with "
             "method None/blockwise/map-reduce/cohorts, chunks aligned to group boundaries or random, labels sorted ascending / "
             "descending runs / unsorted. thorough adds the exhaustive enumeration of all arrays over {NaN,1,4} x all labellings "
